@@ -536,6 +536,7 @@ class C10(C05):
             'truncation at every kind of position, CR-LF, missing final newline; both dialects, several core sizes; checked on gmars: no panic, no hang, and the extracted checker on every accepted result: '
             'entry point inside the code, fields < M, legal \'88 instructions, and number of instructions = number of significant lines before the end marker (nothing skipped silently); non-trivial = the file is accepted')
     base_gens = [('warriors', 500, [2]), ('warriors', 500, [0])]
+    mvals = []
 
     def custom_cases(self, wd, tier, seed):
         rng = random.Random(seed)
@@ -543,6 +544,8 @@ class C10(C05):
         lines = []
         for cfg, t in base:
             lines.append([11] + cfg + list(t))
+            M = cfg[1]
+            self.mvals = [b'%d' % v for v in (M, -M, 2 * M, -2 * M, -3 * M, M - 1, -M - 1, -M + 1, M // 2, -(M // 2) - 1)]
             for _ in range(3):
                 lines.append([11] + cfg + list(self.corrupt(rng, t)))
         for h in (b'MOV $ 0, $ 1\nORG -1\n', b'MOV $ 0, $ 1\nEND -1\n', b'ORG 1\nMOV.I $ 0, $ 1\n', b'ORG 0\nMOV.I $ 0, $ 1', b'MOV $ 0, $ 1\nEND 0', b'', b'\n', b';x', b'ORG 0\n',
@@ -568,7 +571,7 @@ class C10(C05):
             f[j], f[j + 1] = f[j + 1], f[j]
             ls[i] = b' '.join(f)
         elif k == 3 and f:
-            f[rng.randint(0, len(f) - 1)] = rng.choice([b'-1', b'99999', b'-99999', b'2147483648', b'99999999999999999999', b'1e3', b'0x10', b'+5'])
+            f[rng.randint(0, len(f) - 1)] = rng.choice([b'-1', b'99999', b'-99999', b'2147483648', b'99999999999999999999', b'1e3', b'0x10', b'+5'] + self.mvals)
             ls[i] = b' '.join(f)
         elif k == 4 and f:
             f[0] = rng.choice([b'XYZ', b'MUL.I', b'MOV', b'MOV.Q', b'ORG', b'END', b'org', b'end', b'NOP.B'])
@@ -593,4 +596,79 @@ class C10(C05):
         return any(r and r[:2] == [70, 0] for r in impl)
 
 
-ASM_PLANS = [C03(), C05(), C06(), C07(), C08(), C09(), C10(), C16()]
+
+class C17(AsmPlan):
+    pid = 'C17'
+    check_meta = False
+    tie = {90: None, 99: None, 98: None}
+    mon_extra = True
+    codes = {60, 61}
+    timeout_ms = 90000
+    tie_name = 'the gmars binary built from /repo (flags, files, stdout, exit status) vs the extracted Cli model'
+    rule = ('pairs (and singles) of generated warrior programs rendered by the extracted renderer into files, flag vectors over -8 -s -p -c -l -F -r -preset with core size >= 3*length+1; '
+            'fixed placement: stdout and exit status must equal the tallies of the reference battle (extracted Mars on the by-construction warriors) times the rounds; '
+            'random placement: the extracted conservation checker (ties equal, wins+ties <= rounds, each round counted once); non-trivial = exit status 0 with two warriors')
+
+    def gens(self, tier):
+        k = {'quick': 1, 'search': 1}.get(tier, 12)
+        return [('cli', 260 * k, [])]
+
+    def concrete(self, ints, spec):
+        fl = ints[1:9]
+        t1 = find(spec, 60)
+        if t1 is None:
+            return []
+        t2 = find(spec, 61)
+        c = [13] + fl + [2 if t2 is not None else 1, len(t1) - 1] + t1[1:]
+        if t2 is not None:
+            c += [len(t2) - 1] + t2[1:]
+        return [' '.join(str(x) for x in c)]
+
+    def model_applies(self, model_recs):
+        return not any(r[:2] == [90, 5] for r in model_recs)
+
+    def judge(self, ints, spec, idx, conc, impl):
+        f = fatal(impl)
+        if f:
+            return f
+        if find(spec, 62) is not None:
+            return None
+        exp_exit = find(spec, 65)
+        got = find(impl, 90)
+        if exp_exit is None or got is None:
+            return 'no-result' if got is None else None
+        if exp_exit[1] == 1:
+            return None if got[1] == 1 else 'exit-status-0-for-warriors-that-must-be-refused'
+        if got[1] != 0:
+            return 'exit-status-%d' % got[1]
+        exp_out = find(spec, 66)
+        if exp_out is not None and got[2:] != exp_out[1:]:
+            return 'printed-tallies-differ-from-the-reference-battle: got %r want %r' % (bytes(got[2:]).decode('latin-1'), bytes(exp_out[1:]).decode('latin-1'))
+        return None
+
+    def verdict_name(self, r):
+        return {60: 'tallies-not-conserved %s' % r[1:], 61: 'output-not-in-the-documented-shape'}.get(r[0], str(r[0]))
+
+    def pretty(self, ints):
+        names = ['-8', '-s', '-p', '-c', '-l', '-F', '-r', 'preset#']
+        return dict(flags=dict(zip(names, ints[1:9])), programs=ints[9], abstract=ints[10:90])
+
+    def shrink(self, ints):
+        fl = ints[1:9]
+        if fl[6] > 1:
+            yield ints[:7] + [1] + ints[8:]
+        return
+
+    def nontrivial(self, ints, impl):
+        g = find(impl, 90)
+        return g is not None and g[1] == 0 and ints[9] == 2
+
+    def tags(self, ints, impl):
+        t = ['preset=%d' % ints[8], 'F=0' if ints[6] == 0 else 'F>0', 'progs=%d' % ints[9], 'use88=%d' % ints[1]]
+        g = find(impl, 90)
+        if g is not None:
+            t.append('exit=%d' % g[1])
+        return t
+
+
+ASM_PLANS = [C03(), C05(), C06(), C07(), C08(), C09(), C10(), C16(), C17()]
